@@ -190,6 +190,9 @@ func ParseResultField(packet *Packet, mariaDBExtendedTypeInfo bool) (*ColumnDesc
 	//       int<1> data type: 0x00:type, 0x01: format
 	//       string<lenenc> value
 	if mariaDBExtendedTypeInfo {
+		if pos >= len(packet.data) {
+			return nil, base.ErrMalformPacket
+		}
 		if packet.data[pos] == 0 {
 			// skip length byte
 			pos++
@@ -200,11 +203,18 @@ func ParseResultField(packet *Packet, mariaDBExtendedTypeInfo bool) (*ColumnDesc
 			}
 			// currently we dont need to take a look on extended info, so just grab it as is
 			offset := int(num + 1)
+			if offset < 0 || pos+offset > len(packet.data) {
+				return nil, base.ErrMalformPacket
+			}
 			field.ExtendedTypeInfo = packet.data[pos : pos+offset]
 			pos += offset
 		}
 	}
 
+	// the fixed part: 0x0C constant, charset, column length, type, flags, decimals and 2 bytes of filler
+	if pos+13 > len(packet.data) {
+		return nil, base.ErrMalformPacket
+	}
 	//skip 0x0C constant field
 	pos++
 
